@@ -29,6 +29,8 @@ KEYWORD_NAMES = ["Ref", "Type", "Class", "Default", "Match", "Use", "Move", "Loo
 ODD_NAMES = ["msg_type", "a1b", "_x", "HTTPServer2", "clOrdId", "x", "ID", "my_Field", "zcharLegacy", "stringy", "repeatCount", "rootCause"]
 # packet names with runs of capitals, digits and underscores: ToCamel(ToSnake(x)) is not ToCamel(x) for them, so every place that
 # derives a class / file / module name must derive it the same way
+JAVA_PACKAGES = ["com.example.msg", "com.example.msg", "com.acme.fix44", "io.ouchV5.codec"]
+GO_PACKAGES = ["msg", "msg", "fix44", "ouchV5", "sample_bin", "itch50"]
 ODD_PKT_NAMES = ["MDEntry", "TCPHeader", "NoMDEntries", "FXLeg", "IOI", "L2Quote"]
 
 # algorithm names are free text between quotes: characters that mean something to a formatter, a path or a shell are names too
@@ -89,11 +91,16 @@ def gen_options(rng, cfg):
             opts.append(("FixedStringPadFromLeft", rng.choice(["true", "false"])))
         if rng.random() < 0.25:
             opts.append(("FixedStringPadChar", rng.choice(["'0'", "' '", "'\\x00'"])))
-    if rng.random() < 0.5:
-        opts.append(("JavaPackage", '"com.example.msg"'))
-    if rng.random() < 0.5:
-        opts.append(("GoPackage", '"msg"'))
-        opts.append(("GoModule", '"example.com/msg"'))
+    # package names are the user's: digits next to letters, capitals and underscores are ordinary in them (fix44, ouchV5);
+    # the choice reuses the draw that decides whether the option is present, so that the rest of the stream is unchanged
+    r = rng.random()
+    if r < 0.5:
+        opts.append(("JavaPackage", '"%s"' % JAVA_PACKAGES[int(r * 2 * len(JAVA_PACKAGES))]))
+    r = rng.random()
+    if r < 0.5:
+        g = GO_PACKAGES[int(r * 2 * len(GO_PACKAGES))]
+        opts.append(("GoPackage", '"%s"' % g))
+        opts.append(("GoModule", '"example.com/%s"' % g))
     rng.shuffle(opts)
     return opts
 
